@@ -543,12 +543,27 @@ class VarsManager(object):
                             self.trainable_vars.remove(name_list[0])
             for name in name_list:
                 self.variables[name] = var
+            return var
+
+        def follow(all_names, var):
+            # the other members of the merged groups follow their head
+            if var is None:
+                return
+            for name in all_names:
+                if name in self.variables:
+                    self.variables[name] = var
 
         if cplx:
-            same_real([name + "r" for name in new_name_list])
-            same_real([name + "i" for name in new_name_list])
+            follow(
+                [name + "r" for name in name_list],
+                same_real([name + "r" for name in new_name_list]),
+            )
+            follow(
+                [name + "i" for name in name_list],
+                same_real([name + "i" for name in new_name_list]),
+            )
         else:
-            same_real(new_name_list)
+            follow(name_list, same_real(new_name_list))
         self.same_list.append(name_list)
 
     def get(self, name, val_in_fit=True):
